@@ -228,3 +228,78 @@ Example C20_example_ranked :
   ranked 5 [] flat /\ cost 5 [] flat = 21%nat /\
   (exists v, gen 5 [] flat (repeat 1%Z 21) = Ok (v, [])).
 Proof. split; [apply rankedb_ok; reflexivity|]. split; [reflexivity|]. eexists. vm_compute. reflexivity. Qed.
+
+(** ** accepted by the writers and read back
+
+    [gen_side n e s] bundles the schema-side conditions, all decided by computation except C20's own [wf_env]/[wf_schema]:
+    the reference graph below s is acyclic within n steps, record field types have the shape parse_schema produces and their
+    JSON defaults are "safe" (64-bit ints, floats that narrow to binary32) ([gschb]); fixed sizes / enum symbols / field names
+    are well-formed data ([genokb]); the schema side of C01's [data_ok].  Recursive types are outside ([C20_refuted_rec_array]
+    shows the generator itself may not terminate on them, and validate's fuel is not bounded by the schema).
+
+    For EVERY stream: the generated value validates (with explicit fuel 2n), the default writer (schemaless_writer)
+    elaborates it from some fuel on, the bytes are the specification's encoding of a well-typed wire value, and
+    schemaless_reader on those bytes followed by anything returns the documented normalisation of the value (C01) and stops
+    exactly there.  Under a union the writer's search decides the branch (C09): it may be another branch than the one the value
+    was generated for -- the value read back is its normalisation under THAT branch.
+    K3: model and theorem speak about stored values (logicalType annotations are ignored); for the logical readers the
+    statement needs [unions_plain s = true] (no union branch carries a logicalType), see the Example below. *)
+From FA Require Import model.Float model.Codec model.Write model.Read model.Conform model.Container model.ContainerPy
+                       proofs.ContainerProofs proofs.ElabFloats proofs.GenWritten.
+
+Theorem C20_written_and_read_back : forall n o e s f rs v rs',
+  strict o = false /\ strict_allow_default o = false -> gen_side n e s -> gen f e s rs = Ok (v, rs') ->
+  validate (2 * n) o e s (Some v) = Ok true /\
+  exists f0, forall f', (f0 <= f')%nat -> exists a out,
+    elab f' o e s v = WOk a /\ write f' o e s v = WOk (wire a) /\ typedn f' e s a /\ normalises f' o e s v out /\
+    forall f'', (f' <= f'')%nat -> forall r, read f'' ropts0 e s (wire a ++ r)%list = Ok (out, r).
+Proof. exact gen_written. Qed.
+Print Assumptions C20_written_and_read_back.
+
+(** the container writer (Writer / writer(), validator on or off, any codec with decompress (compress b) = b, any marker):
+    a file created, written with the values of generate_many and flushed is -- at the Python level [prun] -- the container
+    history of their wire values, and reads back as exactly those, in order ([small_run]: compressed blocks below 2^63 bytes) *)
+Theorem C20_container_read_back : forall compress decompress, (forall b, decompress (compress b) = Ok b) ->
+  forall sync, length sync = 16%nat -> Forall is_byte sync ->
+  forall n o validator e s f count rs l rs',
+  strict o = false /\ strict_allow_default o = false -> gen_side n e s -> gen_many f e s count rs = Ok (l, rs') ->
+  exists F, forall F', (F <= F')%nat ->
+    exists ws, Forall2 (fun v a => elab F' o e s v = WOk a /\ typedn F' e s a) l ws /\
+      forall meta si hf, meta_ok meta -> (3 <= hf)%nat -> len l < 2 ^ 63 ->
+        small_run compress sync (wcreate sync meta si) (map OWrite ws) ->
+        prun compress sync F' o validator e s (wcreate sync meta si) (writes l) = run compress sync (wcreate sync meta si) (map OWrite ws) /\
+        exists nb, forall k, (nb < k)%nat ->
+          read_container decompress e s F' hf k
+            (out (flush compress sync (prun compress sync F' o validator e s (wcreate sync meta si) (writes l)))) = (ws, EndOK).
+Proof. exact gen_container. Qed.
+Print Assumptions C20_container_read_back.
+
+(** the pieces: generated values are well-formed safe data; validated safe values satisfy C10's wneed *)
+Theorem C20_generated_data_ok : forall n e s f rs v rs', gen_side n e s -> gen f e s rs = Ok (v, rs') ->
+  data_ok e s v /\ safe_py v = true.
+Proof. exact gen_data_ok. Qed.
+Print Assumptions C20_generated_data_ok.
+
+Theorem C20_valid_safe_is_writable : forall o e, strict o = false /\ strict_allow_default o = false -> named_env e = true ->
+  forall n s, gschb n e s = true -> forall v fv, safe_py v = true -> validate fv o e s (Some v) = Ok true ->
+  exists N, wneed N o e s v.
+Proof. exact wneed_of_valid. Qed.
+Print Assumptions C20_valid_safe_is_writable.
+
+(** non-vacuity: the side conditions hold for the acyclic example schema; one generated value written and read back;
+    K3's schema [string-uuid, enum] is exactly what [unions_plain] excludes *)
+Example flat_side : gen_side 5 [] flat.
+Proof.
+  constructor; try reflexivity.
+  - intros n s H. discriminate H.
+  - unfold GenProofs.wf_schema, flat. cbn [sall ftype]. repeat split; try exact I; try discriminate.
+    + cbn. constructor; [intros [H|[]]; discriminate H|]. constructor; [intros []|constructor].
+    + cbn. constructor; [split; [discriminate|exact I]|]. constructor; [split; [discriminate|exact I]|constructor].
+Qed.
+
+Example C20_example_written :
+  exists v a, gen 5 [] flat (repeat 1%Z 21) = Ok (v, []) /\ elab 9 o0 [] flat v = WOk a /\
+              read 9 ropts0 [] flat (wire a ++ [7])%list = Ok (v, [7]) /\
+  unions_plain (SRecord (s2b "R") [] [mkField (s2b "a") (SArray (SUnion [SNull; SLong; SString])) None []]) = true /\
+  unions_plain (SUnion [SAnnot (s2b "uuid") SString; SEnum (s2b "E") [] [s2b "A"; s2b "B"] None]) = false.
+Proof. eexists. eexists. split; [vm_compute; reflexivity|]. split; [vm_compute; reflexivity|]. split; [vm_compute; reflexivity|]. split; reflexivity. Qed.
